@@ -110,7 +110,8 @@ def gen_values(ctx, shapes):
         vals.append(lst)
         vals.append({'k': lst, 'z': [1, 2, lst[-1]]})
     # C. special scalars and empty containers
-    vals += [[], {}, [[]], [{}], {'a': []}, {'a': {}, 'b': [[], {}]}, [0, -1, 1.0, -2.5, 1e22, 1e-7, 1e+20, 2.5e-10, 7e+100, -3e+30, 2.0, 100.0, True, False, None, ''],
+    vals += [[True, False], [1, True, 2.5, False], {'flags': [True, True, False] * 30}, [[], {}, [[]], [{}], {'a': []}][0],
+             [], {}, [[]], [{}], {'a': []}, {'a': {}, 'b': [[], {}]}, [0, -1, 1.0, -2.5, 1e22, 1e-7, 1e+20, 2.5e-10, 7e+100, -3e+30, 2.0, 100.0, True, False, None, ''],
              {'€uro': 'é', 'Z': 1, 'a': 2, 'B': 3, 'aa': 4, '': 5, ' ': 6}, [[1, [2, [3, [4, [5]]]]]], 'just a string', 12, None]
     # D. TLC-enumerated shapes, scaled
     pads = (1, 60, 190) if ctx.quick else (1, 30, 60, 95, 190)
